@@ -358,6 +358,29 @@ func (s *sim) gossipSlot(slot uint64, blk *blockRec, parent *blockRec, hb *state
 			env := b.env
 			res, p := validate(func() gossipval.GossipValidatorResult { return gossipval.ValidateBeaconBlock(ctx, env, g) })
 			s.judge(g, "beacon_block", what, exp, res, p)
+			// right after the restart nothing is marked as seen for this slot and proposer: the same
+			// proposer signs a second header for the SAME slot on top of its own first block. A block is
+			// from a higher slot than its parent: this one is not.
+			if exp == expAccept && offered == 1 && !s.stop {
+				pre, err := w.advance(w.blocks[b.parent], b.slot)
+				if err == nil {
+					if ki := w.keyOf(pre.st, b.env.ProposerIndex); ki >= 0 {
+						f, _ := pre.st.Fork()
+						env2 := *b.env
+						env2.BeaconBlockHeader.ParentRoot = b.root
+						env2.BeaconBlockHeader.StateRoot = fnvRoot("same-slot-child", b.slot)
+						env2.BlockRoot = env2.BeaconBlockHeader.HashTreeRoot(tree.GetHashFn())
+						env2.Signature = w.keys.sign(ki, signingRoot(env2.BlockRoot, domainFor(f, w.gvr, common.DOMAIN_BEACON_PROPOSER, common.Epoch(w.epochOf(b.slot)))))
+						delete(g.seen, fmt.Sprintf("block/%d/%d", b.slot, b.env.ProposerIndex))
+						saveSeen := g.seen
+						g.seen = map[string]bool{}
+						res, p := validate(func() gossipval.GossipValidatorResult { return gossipval.ValidateBeaconBlock(ctx, &env2, g) })
+						g.seen = saveSeen
+						s.res.Stat("fault_block_in_the_slot_of_its_parent", 1)
+						s.judge(g, "beacon_block", fmt.Sprintf("second block of proposer %d for slot %d, built on its own first block of that slot", b.env.ProposerIndex, b.slot), expInvalidOrTiming, res, p)
+					}
+				}
+			}
 		}
 	}
 	if s.stop {
